@@ -40,8 +40,9 @@ _Bool IORA_TRUE;
 /* vacuity canaries: must FAIL in every run (a canary that succeeds means the code under it is unreachable
  * under the contract's precondition / loop invariant, i.e. the proof is vacuous) */
 #if defined(IORA_NATIVE) || !defined(IORA_CANARIES)
-#define IORA_CANARY_LOOP(msg) do { } while (0)
-#define IORA_CANARY(msg) do { } while (0)
+/* ((void)0), not do{}while(0): a degenerate loop inside a loop body makes the non-DFCC `--apply-loop-contracts` see an inner loop without contract */
+#define IORA_CANARY_LOOP(msg) ((void)0)
+#define IORA_CANARY(msg) ((void)0)
 #else
 #define IORA_CANARY_LOOP(msg) __CPROVER_assert(0, "canary: " msg)
 #define IORA_CANARY(msg) __CPROVER_assert(0, "canary: " msg)
